@@ -23,6 +23,31 @@ class Hang(BaseException):
     pass
 
 
+class VirtualClock:
+    """While active, the clocks a program can read (time.time / monotonic / perf_counter) run ahead by `offset`; a
+    FakeSocket with a `tick` lets that much time pass on every recv(): slow but progressing delivery, each segment
+    within the socket timeout."""
+    offset = 0.0
+    depth = 0
+
+    def __enter__(self):
+        import time as _t
+        if VirtualClock.depth == 0:
+            VirtualClock.saved = (_t.time, _t.monotonic, _t.perf_counter)
+            r_time, r_mono, r_perf = VirtualClock.saved
+            _t.time = lambda: r_time() + VirtualClock.offset
+            _t.monotonic = lambda: r_mono() + VirtualClock.offset
+            _t.perf_counter = lambda: r_perf() + VirtualClock.offset
+        VirtualClock.depth += 1
+        return self
+
+    def __exit__(self, *a):
+        import time as _t
+        VirtualClock.depth -= 1
+        if VirtualClock.depth == 0:
+            _t.time, _t.monotonic, _t.perf_counter = VirtualClock.saved
+
+
 class FakeSocket:
     """server: callable(write_phase_bytes, sock) -> reply bytes (or None = silence, "EOF" = close)
     plan: callable(reply_bytes) -> list of chunk lengths (sum may be less: rest delivered whole)"""
@@ -88,6 +113,8 @@ class FakeSocket:
 
     def recv(self, n):
         self._flush()
+        if getattr(self, "tick", 0):
+            VirtualClock.offset += self.tick
         if not self.avail:
             if self.eof:
                 self.empty_reads += 1
